@@ -42,9 +42,9 @@ open Spec.SearchFloat in
 float64 argument was converted from (bitSize 32; the conversion and FormatFloat's conversion back are exact). -/
 def floatText (bits : Nat) (bitSize : Nat) : Bytes :=
   let D := if bitSize == 32 then decode 23 8 bits else decode 52 11 bits
-  if D.special && D.frac != 0 then strBytes "NaN"                     -- case math.IsNaN(f)
-  else if D.special && !D.neg then strBytes "Infinity"                -- case math.IsInf(f, 1)
-  else if D.special && D.neg then strBytes "-Infinity"                -- case math.IsInf(f, -1)
+  if D.special && D.frac != 0 then [78, 97, 78]                       -- case math.IsNaN(f): "NaN"
+  else if D.special && !D.neg then [73, 110, 102, 105, 110, 105, 116, 121]               -- case math.IsInf(f, 1): "Infinity"
+  else if D.special && D.neg then [45, 73, 110, 102, 105, 110, 105, 116, 121]            -- case math.IsInf(f, -1): "-Infinity"
   else if bitSize == 32 then formatFloat D gForm                      -- strconv.FormatFloat(f, 'g', -1, 32)
   else formatFloat D positional                                       -- strconv.FormatFloat(f, 'f', -1, 64)
 
